@@ -79,6 +79,19 @@ PROPS = {
         'stubs': ['crate::time::Instant::now (arbitrary non-decreasing instants)', 'alloc::fmt::format'],
         'out': 'accounting inside World::run_with_limits on non-empty programs, promptness, fact budget on growth',
     },
+    'C01': {
+        'crate': 'biscuit-auth',
+        'quick': [r'c01_walk_(auth_v0|auth_v1|auth_v2_refused|auth_v1_sealed|v0_v0|v1_v1|v0_v1ext)'],
+        'thorough': [r'c01_\w+'],
+        'cap': {'quick': 600, 'thorough': 1800},
+        'per_harness': {r'c01_\w+': {'unwindset': 'memcmp.0:200'}},
+        'functions': ['format::SerializedBiscuit::verify_inner', 'crypto::{verify_authority_block_signature,verify_block_signature,verify_external_signature}',
+                      'crypto::generate_*_signature_payload_{v0,v1}', 'crypto::generate_seal_signature_payload_v0'],
+        'bounds': 'tokens of 1..3 blocks; signature versions 0, 1 and 2 (unknown); external signature present/absent; sealed / unsealed; ed25519 and secp256r1 key objects as next keys; block payloads of 2 bytes, signatures of 3 bytes, all bytes and all key objects symbolic; every answer of the signature primitive symbolic',
+        'stubs': ['crypto::PublicKey::verify_signature -> oracle (Ok/Err nondeterministically, query recorded)', 'ed25519 PrivateKey::public -> uninterpreted function', 'p256 PublicKey::to_bytes -> deterministic stand-in', 'alloc::fmt::format'],
+        'out': 'unforgeability of the primitives (EUF-CMA, assumed); protobuf decoding of the envelope (SerializedBiscuit::deserialize), byte-level corruption, re-encodings; collisions between v0 payloads of different shapes',
+        'level_text': 'Verification obligations: bounded symbolic execution of the whole verification walk with the signature primitive replaced by a recording oracle; acceptance implies exactly the triples (key, specified payload, signature) of the specification were accepted by the primitive.',
+    },
 }
 
 
